@@ -363,6 +363,37 @@ namespace hv
             log_eval(uid.value(), nv, now, v, a, b);
         }
     };
+    // trigger + PASSIVE structural bundle {a, b}: all-valid gate / default gate. Wired fully ({{"a",x},{"b",y}}) or partially
+    // ({{"a",x}}: field b is a null source and never holds a value)
+    using VPairT = TSB<"VPairT", Field<"a", TS<Int>>, Field<"b", TS<Int>>>;
+    struct VPairAll
+    {
+        static constexpr auto name = "v_pairall";
+        HV_LIFECYCLE
+        static void eval(In<"trig", TS<Int>> trig, In<"pair", VPairT, InputActivity::Passive, InputValidity::AllValid> pair,
+                         Scalar<"uid", Int> uid, NodeView nv, DateTime now, Out<TS<Int>> out)
+        {
+            maybe_fault(uid.value(), "eval");
+            static_cast<void>(pair);
+            Int v = trig.value();
+            out.set(v);
+            log_eval(uid.value(), nv, now, v, trig);
+        }
+    };
+    struct VPairAny
+    {
+        static constexpr auto name = "v_pairany";
+        HV_LIFECYCLE
+        static void eval(In<"trig", TS<Int>> trig, In<"pair", VPairT, InputActivity::Passive> pair,
+                         Scalar<"uid", Int> uid, NodeView nv, DateTime now, Out<TS<Int>> out)
+        {
+            maybe_fault(uid.value(), "eval");
+            static_cast<void>(pair);
+            Int v = trig.value();
+            out.set(v);
+            log_eval(uid.value(), nv, now, v, trig);
+        }
+    };
     // TSL<TS<Int>,2> default validity (valid = any child valid)
     struct VList2
     {
